@@ -1,1 +1,86 @@
-fn main(){}
+//! C17 — the binning scheme is sound and index files round-trip with unchanged query answers.
+//!
+//! (i)   `binning`: every feature interval × every region interval of the nine geometries
+//!       min_shift ∈ {1,2,3} × depth ∈ {1,2,3} (complete, E3-style bespoke sweeps), the literal double
+//!       loop for N ≤ 128, the spec's reg2bin/reg2bins as a second opinion, and the edge alphabet ± 2 at
+//!       (14,5) and non-default geometries.
+//! (ii)  `chunks`: every list of ≤ 4 chunks with endpoints in 0..=6 × every min_offset in 0..=7 (E3).
+//! (iii) `roundtrip` / `flat`: indexes from the indexers (E1 complete) and structurally valid hand-built
+//!       ones (E1 deviation-bounded) through BAI / CSI / tabix writer → reader; gzi / fai / crai lists (E3).
+
+mod binning;
+mod chunks;
+mod flat;
+mod roundtrip;
+mod util;
+
+use roundtrip::{Fmt, HFmt, IndexerSpace};
+use vmc::Config;
+
+fn main() {
+    vmc::run("C17", "model_checking", |ctx| {
+        ctx.rule(
+            "(i) per geometry: every feature interval [a,b] and every region [c,e] with 1<=a<=b<=N-1 (N=2^(min_shift+3*depth)); \
+             evaluations = features + regions, transitions = (bin, region) obligations + literal (feature, region) pairs, \
+             distinct = distinct region bin sets; (ii) every chunk list x min_offset, distinct = distinct outputs; \
+             (iii) every enumerated index value, distinct = distinct serialised files",
+        );
+        ctx.assume("CSIv1 / SAMv1 §5.3 reg2bin and reg2bins were transcribed correctly into gidx::spec (unit-tested against the bin numbers printed in SAMv1 §5.3)");
+        ctx.assume("the per-bin rewriting (for all b, R: R ∩ C_b ≠ ∅ ⇒ b ∈ bins(R), C_b = union of the features mapped to b) is equivalent to the pair statement; cross-checked by the literal double loop for N <= 128");
+        ctx.assume("flate2/zlib-rs (crai gzip, BGZF of tabix/CSI index files) are correct");
+
+        // ---- (i) ------------------------------------------------------------------------------------
+        for d in 1..=3u8 {
+            for ms in 1..=3u8 {
+                let n = 1u64 << (ms + 3 * d);
+                binning::small(ctx, ms, d, n <= 128);
+            }
+        }
+        binning::large(ctx, 14, 5);
+        binning::large(ctx, 12, 5);
+        binning::large(ctx, 14, 6);
+        if ctx.thorough() {
+            binning::large(ctx, 10, 8);
+            binning::large(ctx, 3, 2);
+            binning::large(ctx, 20, 3);
+        }
+
+        // ---- (ii) -----------------------------------------------------------------------------------
+        chunks::run(ctx);
+
+        // ---- (iii) ----------------------------------------------------------------------------------
+        let quick = ctx.quick();
+        // quick: scaled-down alphabets (6 starts x 5 spans), four formats, four covering
+        // (layout, container, unplaced) combinations; thorough: full alphabets, seven formats, all
+        // layout x container pairs, and <= 3 records on the scaled-down alphabets.
+        let fmts = if quick {
+            vec![
+                Fmt::Bai,
+                Fmt::Tabix,
+                Fmt::Csi { ms: 14, d: 5, header: false },
+                Fmt::Csi { ms: 3, d: 2, header: true },
+            ]
+        } else {
+            vec![
+                Fmt::Bai,
+                Fmt::Tabix,
+                Fmt::Csi { ms: 14, d: 5, header: false },
+                Fmt::Csi { ms: 14, d: 5, header: true },
+                Fmt::Csi { ms: 3, d: 2, header: false },
+                Fmt::Csi { ms: 12, d: 5, header: false },
+                Fmt::Csi { ms: 14, d: 6, header: true },
+            ]
+        };
+        let combos = if quick { roundtrip::combos_covering() } else { roundtrip::combos_pairs() };
+        let sp = IndexerSpace { fmts: fmts.clone(), max_records: 2, quick, combos };
+        ctx.harness(Config::new("rt_indexer_le2", 0), |ch| roundtrip::body_indexer(ch, &sp));
+        if !quick {
+            let sp3 = IndexerSpace { fmts, max_records: 3, quick: true, combos: roundtrip::combos_covering() };
+            ctx.harness(Config::new("rt_indexer_le3_reduced", 0), |ch| roundtrip::body_indexer(ch, &sp3));
+        }
+        let hf = [HFmt::Bai, HFmt::Tabix, HFmt::Csi(14, 5), HFmt::Csi(3, 2), HFmt::Csi(1, 1)];
+        let bound = ctx.by_tier(3, 4);
+        ctx.harness(Config::new("rt_handbuilt", bound), |ch| roundtrip::body_handbuilt(ch, &hf));
+        flat::run(ctx);
+    });
+}
